@@ -24,8 +24,11 @@ class ZeroTracker:
             t = b.term
             if t.kind == "switch":
                 info = self._cond_info(t)
-                if info:
+                # only user-named locals: tracing/log macros branch on scores of unnamed temporaries
+                if info and body.local_name(info[0]) and not t.is_tracing:
                     self.tracked.add(info[0])
+                else:
+                    self._cache[t.bb] = None
 
     # ---- condition shape: (local, test) with test in gt0 / ne0 / eq0 / le0 (meaning: cond true <=> L test)
     def _cond_info(self, term):
